@@ -425,6 +425,7 @@ func (f *Function) finishBody() {
 // along with any nested functions, and optionally prints them.
 func (f *Function) done() {
 	assert(f.parent == nil, "done called on an anonymous function")
+	verifEvent("done?", nil, f)
 
 	var visit func(*Function)
 	visit = func(f *Function) {
@@ -446,6 +447,7 @@ func (f *Function) done() {
 		}
 	}
 	visit(f)
+	verifEvent("fndone", nil, f)
 }
 
 func isUselessPhi(phi *Phi) (Value, bool) {
